@@ -177,4 +177,19 @@ def validate(tier, seed):
     if bad:
         entry['violation'] = [False, 'descriptors depend on the SMILES spelling', {'a': bad[0][0], 'b': bad[0][1]}]
         entry['func'] = 'concrete'
-    return [entry]
+    # the other input forms the property lists: a molecule object (no explicit hydrogens, all explicit, exactly one explicit),
+    # each asked twice on the SAME object, against the SMILES text
+    from vf.molforms import descriptors_of
+    badf, nf = [], 0
+    for smi in ['C(=CC)CCCC=CC', 'CC(C)CC=CCO', 'C1CCCCC1C=C', 'CC(=O)OCC=CC', 'c1ccccc1C']:
+        ref = descriptors_of(lib, smi, 'smiles')[0]
+        for form in ('mol', 'mol_allH', 'mol_oneH'):
+            nf += 1
+            if any(r != ref for r in descriptors_of(lib, smi, form, 2)):
+                badf.append((smi, form))
+    entry2 = dict(name='BensonGA descriptors of a molecule object (implicit / all explicit / one explicit hydrogen, asked twice) '
+                       '= those of its SMILES (real RDKit, concrete)', ok=True, n=nf, detail='%d differing: %r' % (len(badf), badf[:2]))
+    if badf:
+        entry2['violation'] = [False, 'descriptors depend on the input form', {'a': badf[0][0], 'form': badf[0][1]}]
+        entry2['func'] = 'concrete'
+    return [entry, entry2]
